@@ -66,9 +66,9 @@ func cmdCheck(args []string) {
 		seed, _ = strconv.Atoi(s)
 	}
 	start := time.Now()
-	timeout := 25
+	timeout := 45
 	if *tier == "thorough" {
-		timeout = 90
+		timeout = 150
 	}
 	evPath := filepath.Join(*verif, "evidence", prop+".json")
 	replayDir := filepath.Join(*verif, "replays", prop)
